@@ -15,7 +15,8 @@ THEOREMS = ["GitAi.Sys.no_invention", "GitAi.Sys.ghost_only_from_agent_edit", "G
             "GitAi.Sys.regression_O3_stale_initial_after_path_checkout", "GitAi.Sys.regression_O20_initial_by_line_number_after_restore",
             "GitAi.Sys.regression_O17_stale_entry_after_restore", "GitAi.Sys.regression_O21_stash_drop_stale_entry",
             "GitAi.Sys.path_checkout_exact", "GitAi.Sys.regression_path_checkout_keeps_staged_ai_line",
-            "GitAi.Sys.witness_path_checkout_loses_line_removed_after_staging"]
+            "GitAi.Sys.witness_path_checkout_loses_line_removed_after_staging",
+            "GitAi.Sys.no_invention_ws_step_partial", "GitAi.Sys.reset_keeps_reindented_lines_of_target"]
 # findings the line-identity model cannot see (token level / commit coordinates): runs in which the content oracle
 # reports one of them are not held against the model
 TOKEN_PAIR_SIG = "token-pairing-with-deleted-line-of-same-hunk"
@@ -152,10 +153,16 @@ class Walk:
 
     def git(self, *args):
         h0, n0, d0 = self.state or self.git_state()
+        ov = self.override_lines(args)
         rc, out, err = self.r.git(*args)
         h1, n1, d1 = self.state = self.git_state()
         self.log(op="git", args=list(args), rc=rc, head0=h0, head1=h1, nstash0=n0, nstash1=n1, depth0=d0, depth1=d1,
                  files={p: self.read_lines(p) for p in self.files() if self.r.exists(p)})
+        ws = self.ws_lines(args, rc, h0, h1)
+        if ws:
+            self.steps[-1]["ws"] = ws
+        if ov and rc == 0:
+            self.steps[-1]["ov"] = ov
         if rc == 0 and args and args[0] == "revert" and h0 != h1:
             # a revert commit puts the previous text of the lines back: an in-place rewrite nobody typed
             rcn, names, _ = self.r.plain_git("diff", "--name-only", "-z", h0, h1)
@@ -168,6 +175,70 @@ class Walk:
                     if self.gone_lines(q, q, s_):
                         self.recon_gone.add((q, s_))
         return rc
+
+    def show_lines(self, rev, p):
+        rc, out, _ = self.r.plain_git("show", f"{rev}:{p}")
+        return out.split("\n") if rc == 0 else []
+
+    def override_lines(self, args):
+        """For the correspondence: before `commit --amend` / `reset --soft|--mixed`, the lines for which the latest
+        working-log entry of a file holds an explicit attribution to the PERSON (author `human`, written when a
+        person's change replaced an agent's lines). For `merge_attributions_favoring_first(working log, blame)`
+        such a line is attributed, not a gap: blame does not fill it. The line-identity model has no such
+        attribution (a person's line and a line nobody claims are the same `none`); it takes the lines as an
+        input (`hum` of Model/Discard.lean mergedAuthorWs). → {path: [line texts]} or None"""
+        a = [x for x in args if x != "-q"]
+        if not (a[:1] == ["commit"] and "--amend" in a) and not (a[:1] == ["reset"] and a[1:2] in (["--soft"], ["--mixed"])):
+            return None
+        latest = {}
+        try:
+            base = self.r.head() or "initial"
+            for cp in self.r.checkpoints(base):
+                for e in cp.get("entries", []):
+                    latest[e.get("file")] = e
+            out = {}
+            for p, e in latest.items():
+                nums = [n for la in e.get("line_attributions") or [] if la.get("author_id") == "human"
+                        for n in range(la["start_line"], la["end_line"] + 1)]
+                if not nums:
+                    continue
+                blob = os.path.join(self.r.ai_dir(), "working_logs", base, "blobs", e.get("blob_sha") or "-")
+                lines = open(blob, encoding="utf-8", errors="replace").read().split("\n")
+                hit = [lines[n - 1] for n in nums if 1 <= n <= len(lines) and norm(lines[n - 1]) != ""]
+                if hit:
+                    out[p] = hit
+            return out or None
+        except Exception:
+            return None
+
+    def ws_lines(self, args, rc, h0, h1):
+        """For the correspondence (vlib/props/c03_discard.py): the lines that git sees as ADDED by this commit
+        (amended commit: relative to its parent) / as absent from the commit a `reset --soft|--mixed HEAD~1`
+        moved to, although the older content holds the same text in another whitespace form. The model's
+        line ids do not see whitespace; which lines these are is git's business and an input of the model
+        (Model/Discard.lean `commitStepWs`, `amendStepWs`, `resetStepWs`). → {path: [line texts]} or None"""
+        if rc != 0 or not args or not h1:
+            return None
+        a = [x for x in args if x != "-q"]
+        if a[0] == "commit" and h0 != h1:
+            old, new = (f"{h1}^", h1)
+            newc = lambda p: self.show_lines(new, p)
+        elif a[0] == "reset" and a[1:2] in (["--soft"], ["--mixed"]) and a[2:] == ["HEAD~1"] and h0 != h1:
+            old = h1
+            newc = lambda p: self.read_lines(p)
+        else:
+            return None
+        out = {}
+        for p in self.files():
+            if not self.r.exists(p):
+                continue
+            ol = self.show_lines(old, p)
+            exact = set(ol)
+            mod = set(norm(l) for l in ol)
+            hit = [l for l in newc(p) if l not in exact and norm(l) != "" and norm(l) in mod]
+            if hit:
+                out[p] = hit
+        return out or None
 
     def op_commit(self):
         mode = self.rng.below(4)
@@ -667,6 +738,43 @@ def discard_finish(res):
     return bad
 
 
+def ws_witness(res):
+    """Props/C03.lean `reset_keeps_reindented_lines_of_target` replayed on the binary: four commits in which a
+    session appends one line each, the person re-indents the four lines, then (a) `reset --soft HEAD~1` and a
+    commit, (b) `commit --amend`. The theorem's numbers: INITIAL / the next note hold lines 5–7 (undone commit,
+    target, target's parent), the amended note holds lines 4–7."""
+    def scenario(variant):
+        with e2e.Env() as env:
+            r = env.repo("r")
+            body = "h1\nh2\nh3\n"
+            r.write("f.txt", body); r.git("add", "-A"); r.git("commit", "-q", "-m", "base")
+            for i in range(4):
+                r.human_checkpoint(["f.txt"])
+                body += f"ai-s1-{i} x\n"
+                r.write("f.txt", body); r.ai_checkpoint("s1", ["f.txt"], tool=S.TOOL)
+                r.git("add", "-A"); r.git("commit", "-q", "-m", f"c{i}")
+            r.write("f.txt", "h1\nh2\nh3\n" + "".join(f"    ai-s1-{i} x\n" for i in range(4)))
+            if variant == "amend":
+                r.git("add", "-A"); r.git("commit", "-q", "--amend", "-m", "am")
+                return sorted(e2e.note_line_authors(r.note(r.head()), "f.txt"))
+            r.git("reset", "--soft", "HEAD~1")
+            ini = r.initial() or {}
+            pend = sorted(l for a in (ini.get("files") or {}).get("f.txt", []) for l in range(a["start_line"], a["end_line"] + 1))
+            r.git("add", "-A"); r.git("commit", "-q", "-m", "c4")
+            return [pend, sorted(e2e.note_line_authors(r.note(r.head()), "f.txt"))]
+    try:
+        got = {"reset": scenario("reset"), "amend": scenario("amend")}
+    except Exception as ex:
+        got = {"error": repr(ex)}
+    want = {"reset": [[5, 6, 7], [5, 6, 7]], "amend": [4, 5, 6, 7]}
+    name = "witness:reset_keeps_reindented_lines_of_target replayed on the binary (pending lines after reset --soft, next note, amended note)"
+    res.obligation(name, got == want, "correspondence")
+    res.count_case("ws-witness", nontrivial=True)
+    res.tag(["witness:ws-reset-amend"])
+    if got != want:
+        res.broken_tie("witness:reset_keeps_reindented_lines_of_target", {"theorem": want, "binary": got})
+
+
 def phase_recipes(res, seed, rounds, threads=16):
     """directed histories: pending AI lines, a discarding or shelving operation, the person retypes"""
     jobs = [(seed * 1000 + 17 * k + i, x, via) for k in range(rounds) for i, x in enumerate(Walk.DISCARDS) for via in ("initial", "entries", "staged", "retype", "edited")]
@@ -747,6 +855,7 @@ def run(tier, seed):
                 by_len.setdefault(int(j_["length"]), []).append(int(j_["seed"]))
         for L_, seeds_ in sorted(by_len.items()):
             phase_walks(res, seeds_, L_)
+    ws_witness(res)
     phase_recipes(res, seed, 1 if tier == "quick" else 12)
     n = 64 if tier == "quick" else 2000
     phase_walks(res, [seed * 100000 + i for i in range(n)], 25 if tier == "quick" else 40)
